@@ -547,12 +547,14 @@ func isNilConst(v ssa.Value) bool {
 // knownNil reports whether, at block b, value v is known to be nil (want=true)
 // or non-nil (want=false) by a dominating test.
 func knownNilness(b *ssa.BasicBlock, same func(ssa.Value) bool) (isNil, isNonNil bool) {
-	for _, pc := range pathConds(b) {
-		x, neq, ok := nilTest(pc.If.Cond)
+	// conditions are taken apart first: `onSpace := x == nil || x == None; if onSpace {..} else {..}`
+	// makes x non-nil in the else branch
+	for _, pf := range pathFacts(b) {
+		x, neq, ok := nilTest(pf.Cond)
 		if !ok || !same(x) {
 			continue
 		}
-		if neq == pc.Branch {
+		if neq == pf.Truth {
 			isNonNil = true
 		} else {
 			isNil = true
